@@ -20,7 +20,6 @@ use std::collections::BTreeSet;
 use std::collections::VecDeque;
 use std::str::from_utf8;
 use std::str::from_utf8_unchecked;
-use std::str::FromStr;
 
 use crate::builder::ArrayBuilder;
 use crate::builder::ObjectBuilder;
@@ -1457,9 +1456,10 @@ pub fn is_object(value: &[u8]) -> bool {
 /// Convert `JSONB` value to `serde_json` Value
 pub fn to_serde_json(value: &[u8]) -> Result<serde_json::Value, Error> {
     if !is_jsonb(value) {
-        let json_str = std::str::from_utf8(value)?;
-        return match serde_json::Value::from_str(json_str) {
-            Ok(v) => Ok(v),
+        // parse the `JSON` text by the same parser as other functions,
+        // so that the result is the same as the result of the `JSONB` value.
+        return match parse_value(value) {
+            Ok(val) => containter_to_serde_json(&val.to_vec()),
             Err(_) => Err(Error::InvalidJson),
         };
     }
@@ -1472,12 +1472,10 @@ pub fn to_serde_json_object(
     value: &[u8],
 ) -> Result<Option<serde_json::Map<String, serde_json::Value>>, Error> {
     if !is_jsonb(value) {
-        let json_str = std::str::from_utf8(value)?;
-        return match serde_json::Value::from_str(json_str) {
-            Ok(v) => match v {
-                serde_json::Value::Object(obj) => Ok(Some(obj.clone())),
-                _ => Ok(None),
-            },
+        // parse the `JSON` text by the same parser as other functions,
+        // so that the result is the same as the result of the `JSONB` value.
+        return match parse_value(value) {
+            Ok(val) => containter_to_serde_json_object(&val.to_vec()),
             Err(_) => Err(Error::InvalidJson),
         };
     }
